@@ -3,6 +3,7 @@
 from __future__ import annotations
 
 import json
+import os
 import random
 
 from vlib import core, store
@@ -173,24 +174,56 @@ def judge_sequenced(stream: list[dict], batch_size: int, flt: dict | None,
     return "held", None, info
 
 
-def judge_top_up(stream: list[dict], batch_size: int, cut: int) -> tuple[str, dict | None, dict]:
+def judge_top_up(stream: list[dict], batch_size: int, cut: int, mode: str = "same-holder",
+                 db_path: str | None = None) -> tuple[str, dict | None, dict]:
     """One holder: ingest a first part, stream it (consumed completely), ingest a top-up in a
     new `with holder:` block, stream again - the second stream must describe the whole store
-    (spans, traces, and the parent/child links the top-up added)."""
+    (spans, traces, and the parent/child links the top-up added).
+    mode: same-holder | window-clean-between (a window clean-up with time_buffer 0, which
+    removes nothing, runs before the top-up - late parents arrive afterwards) | new-holder
+    (database file; the top-up and the second stream go through a NEW holder object) |
+    new-holder-one-name (as new-holder, the top-up holding spans of ONE workflow name only)."""
     info: dict = {}
-    part1, part2 = stream[:cut], stream[cut:]
+    if mode == "new-holder-one-name":
+        names = sorted({s["job_name"] for s in stream})
+        pick = names[cut % len(names)]
+        traces = sorted({s["job_id"] for s in stream if s["job_name"] == pick})
+        late = set(traces[: max(1, len(traces) // 2)])
+        part2 = [s for s in stream if s["job_name"] == pick and s["job_id"] in late]
+        part1 = [s for s in stream if not (s["job_name"] == pick and s["job_id"] in late)]
+        stream = part1 + part2
+        if not part1:
+            return "skip", None, info
+    else:
+        part1, part2 = stream[:cut], stream[cut:]
     holder = None
+    uri = "sqlite:///" + db_path if mode.startswith("new-holder") else "sqlite:///:memory:"
     try:
-        holder = store.new_holder("sqlite:///:memory:", batch_size)
+        holder = store.new_holder(uri, batch_size)
         store.ingest(holder, part1)
         store.stream_all(holder, None)
+        if mode == "window-clean-between":
+            try:
+                holder.remove_jobs_outside_of_time_window()
+            except ValueError as exc:
+                if "time buffer" not in str(exc).lower():
+                    raise
+        if mode.startswith("new-holder"):
+            holder.engine.dispose()
+            holder = store.new_holder(uri, batch_size)
         store.ingest(holder, part2)
         got = store.stream_all(holder, None)
+        names_seen = [name for name, _t in got]
+        if len(names_seen) != len(set(names_seen)):
+            return "violated:top-up:workflow-name-yielded-twice", {
+                "names": names_seen[:12], "mode": mode}, info
     except Exception as exc:
         return f"violated:top-up:exception:{type(exc).__name__}", {"exc": repr(exc)[:300]}, info
     finally:
         if holder is not None:
             holder.engine.dispose()
+        if db_path and os.path.exists(db_path):
+            os.remove(db_path)
     model = store.model_first_wins(stream)
     kids: dict[str, set] = {}
     for s in model.values():
@@ -337,13 +370,19 @@ def run_chunk(case: dict) -> dict:
                           "filter": eff, "meta": dict(meta, then=follow)})
         if idx % 4 == 1 and len(stream) >= 3:
             cut = rng.randint(1, len(stream) - 1)
-            v4, d4, info4 = judge_top_up(stream, b, cut)
+            mode = ["same-holder", "window-clean-between", "new-holder",
+                    "new-holder-one-name"][(idx // 4) % 4]
+            dbp = os.path.join(case["workdir"], f"c12-topup-{case['_idx']}-{idx}.sqlite") \
+                if mode.startswith("new-holder") else None
+            v4, d4, info4 = judge_top_up(stream, b, cut, mode, dbp)
             n += 1
             bump("top_up:" + v4.split(":")[0])
+            bump("top_up_mode:" + mode)
             bump("top_up_links_added_after_first_stream", info4.get("top_up_links_added", 0))
             if v4.startswith("violated") and len(fails) < 4:
                 fails.append({"symptom": v4[9:], "detail": d4, "stream": stream, "batch_size": b,
-                              "filter": None, "meta": {"top_up": True, "cut": cut}})
+                              "filter": None, "meta": {"top_up": True, "cut": cut,
+                                                       "mode": mode}})
         if idx % 3 == 0:
             # second observation point: the real consumer, on a store that may hold broken
             # traces (state before cleaning)
@@ -398,7 +437,9 @@ def main(tier: str, seed: int) -> int:
                        "workflow names are consistent inside a trace (state after cleaning)"]
     P = core.NPROC
     n = 2400 if tier == "quick" else 60000
-    cases = [{"rng_seed": f"c12-{seed}-{i}", "count": n // P} for i in range(P)]
+    wd = os.path.join(core.work_dir(), "c12")
+    os.makedirs(wd, exist_ok=True)
+    cases = [{"rng_seed": f"c12-{seed}-{i}", "count": n // P, "workdir": wd} for i in range(P)]
     results, notes = core.run_workers("checks.c12", "run_chunk", cases, case_wall=5000, timeout=6000)
     for nt in notes:
         chk.note_inconclusive(nt)
@@ -426,7 +467,10 @@ def main(tier: str, seed: int) -> int:
 
 def run_replay(case: dict) -> dict:
     if case.get("meta", {}).get("top_up"):
-        v, d, info = judge_top_up(case["stream"], case["batch_size"], case["meta"]["cut"])
+        mode = case["meta"].get("mode", "same-holder")
+        v, d, info = judge_top_up(case["stream"], case["batch_size"], case["meta"]["cut"], mode,
+                                  os.path.join(core.work_dir(), "replay-topup.sqlite")
+                                  if mode.startswith("new-holder") else None)
         return {"status": "ok", "verdict": v, "detail": d}
     if case.get("meta", {}).get("sequenced"):
         v, d, info = judge_sequenced(case["stream"], case["batch_size"], case["filter"],
